@@ -111,3 +111,63 @@ package config
 //@   loop 1 invariant[some-so-far] declaredOn ==> exists(m, urltree.Method, in(m, policies) && policies[m].URL == url)
 //@   ensures[all-entries] result ==> forall(m, urltree.Method, in(m, policies) ==> policies[m].URL == url)
 //@   ensures[some-entry] result ==> exists(m, urltree.Method, in(m, policies) && policies[m].URL == url)
+
+// ---------------------------------------------------------------------------------------------------------------------
+// C08: the disk half of "a configuration update is all-or-nothing". Ghost file system restricted to the managed
+// locations: fsdom[p] <=> file p exists, fsys[p] its bytes. The functions that touch the real disk are TRUSTED through
+// these contracts (os.*, filepath.Walk, io.ReadAll are outside the verifier's reach).
+//@ ghost var fsdom gmap[string]bool
+//@ ghost var fsys gmap[string][]byte
+//@ ghost func md5of(b []byte) string
+// assumption: no MD5 collisions among the managed files
+//@ axiom[md5-not-empty] forall(a, []byte, md5of(a) != "")
+//@ axiom[md5-injective] forall(a, []byte, forall(b, []byte, md5of(a) == md5of(b) ==> a == b))
+
+// a snapshot is consistent: one digest per stored file, the digest of its content
+//@ ghost func snapOK(b *FileSystemBackUp) bool = b != nil && b.data != nil && b.dataMD5 != nil && forall(p, string, in(p, b.dataMD5) <==> in(p, b.data)) && forall(p, string, in(p, b.data) ==> b.dataMD5[p] == md5of(b.data[p]))
+//@ extern FileSystemOperation.createFileSystemBackUp
+//@   modifies nothing
+//@   allocates FileSystemBackUp, map
+//@   ensures[snapshot-of-disk] result1 == nil ==> snapOK(result0) && !old(allocated(result0)) && forall(p, string, in(p, result0.data) <==> fsdom[p]) && forall(p, string, fsdom[p] ==> result0.data[p] == fsys[p])
+//@ extern FileSystemOperation.storeFileOnDisk
+//@   modifies fsdom, fsys
+//@   ensures[written] result == nil ==> fsdom[filePath] && fsys[filePath] == content
+//@   ensures[only-this-file] forall(p, string, p != filePath ==> fsdom[p] == old(fsdom)[p] && fsys[p] == old(fsys)[p])
+//@ extern FileSystemOperation.cleanUpFile
+//@   modifies fsdom, fsys
+//@   ensures[removed] result == nil ==> !fsdom[filePath]
+//@   ensures[only-this-file] forall(p, string, p != filePath ==> fsdom[p] == old(fsdom)[p] && fsys[p] == old(fsys)[p])
+
+// The files of this snapshot whose digest differs from (or is missing in) the given digests, with THIS snapshot's content.
+//@ func (*FileSystemBackUp).GetDiff
+//@   prop C08
+//@   requires fsb != nil && fsb.dataMD5 != nil && fsb.data != nil && forall(p, string, in(p, fsb.dataMD5) ==> in(p, fsb.data))
+//@   modifies nothing
+//@   allocates map
+//@   loop 1 modifies mapof(diff)
+//@   loop 1 invariant[diff-so-far] diff != nil && forall(p, string, in(p, diff) <==> (in(p, seen1) && ite(in(p, dataMD5), dataMD5[p], "") != fsb.dataMD5[p])) && forall(p, string, in(p, diff) ==> diff[p] == fsb.data[p])
+//@   ensures[differing-files] result != nil && !old(allocated(result)) && forall(p, string, in(p, result) <==> (in(p, fsb.dataMD5) && ite(in(p, dataMD5), dataMD5[p], "") != fsb.dataMD5[p]))
+//@   ensures[own-content] forall(p, string, in(p, result) ==> result[p] == fsb.data[p])
+
+//@ func (*FileSystemOperation).Backup
+//@   prop C08
+//@   requires fs != nil
+//@   modifies fs.backUp
+//@   allocates FileSystemBackUp, map
+//@   ensures[backup-is-the-disk] result == nil ==> snapOK(fs.backUp) && forall(p, string, in(p, fs.backUp.data) <==> fsdom[p]) && forall(p, string, fsdom[p] ==> fs.backUp.data[p] == fsys[p])
+
+// After a successful Restore the managed files are byte-for-byte those of the backup: same set of files, same content.
+//@ func (*FileSystemOperation).Restore
+//@   prop C08
+//@   requires fs != nil && snapOK(fs.backUp)
+//@   modifies fsdom, fsys
+//@   allocates FileSystemBackUp, map
+//@   loop 1 modifies fsdom, fsys
+//@   loop 1 invariant[restored-so-far] forall(p, string, in(p, seen1) ==> fsdom[p] && fsys[p] == fs.backUp.data[p])
+//@   loop 1 invariant[others-untouched] forall(p, string, !in(p, seen1) ==> fsdom[p] == old(fsdom)[p] && fsys[p] == old(fsys)[p])
+//@   loop 2 modifies fsdom, fsys
+//@   loop 2 invariant[content-restored] forall(p, string, in(p, fs.backUp.data) ==> fsdom[p] && fsys[p] == fs.backUp.data[p])
+//@   loop 2 invariant[extra-removed-so-far] forall(p, string, in(p, seen2) && !in(p, fs.backUp.data) ==> !fsdom[p])
+//@   loop 2 invariant[only-known-files] forall(p, string, fsdom[p] ==> in(p, fs.backUp.data) || in(p, fileSystemSnapshot.data))
+//@   ensures[restore-content] result == nil ==> forall(p, string, in(p, fs.backUp.data) ==> fsdom[p] && fsys[p] == fs.backUp.data[p])
+//@   ensures[restore-extra] result == nil ==> forall(p, string, fsdom[p] ==> in(p, fs.backUp.data))
